@@ -402,6 +402,17 @@ func c10Main(c *hx.Ctx) {
 	c.Rule = "a sequence evaluation is non-trivial when it has ≥ 2 frames of which ≥ 2 are distinct"
 	s := &c10State{c: c, solo: map[string][]byte{}, soOC: map[string]string{}}
 	reg := dcodec.GetGlobalRegistry()
+	// pristine copies of the registered codec objects, taken before the first call on any of them
+	pristine := map[string]reflect.Value{}
+	for _, sy := range c10Syntaxes() {
+		if cd, ok := reg.GetCodec(sy.TS); ok {
+			if v := reflect.ValueOf(cd); v.Kind() == reflect.Ptr && v.Elem().Kind() == reflect.Struct {
+				cp := reflect.New(v.Elem().Type())
+				cp.Elem().Set(v.Elem())
+				pristine[sy.Name] = cp
+			}
+		}
+	}
 	for _, sy := range c10Syntaxes() {
 		cd, ok := reg.GetCodec(sy.TS)
 		if !ok {
@@ -444,8 +455,98 @@ func c10Main(c *hx.Ctx) {
 			}
 		}
 	}
+	c10CodecHistories(c, pristine)
 	c10Objects(c)
 	c.Sample(map[string]any{"syntaxes": len(c10Syntaxes()), "solo_cache": len(s.soOC)})
+}
+
+// c10FreshCodec: a codec object in the state the registered one had before its first call
+func c10FreshCodec(pristine map[string]reflect.Value, name string) dcodec.Codec {
+	p, ok := pristine[name]
+	if !ok {
+		return nil
+	}
+	cp := reflect.New(p.Elem().Type())
+	cp.Elem().Set(p.Elem())
+	cd, _ := cp.Interface().(dcodec.Codec)
+	return cd
+}
+
+// c10CodecHistories: ONE codec object (the registered singleton, which the sequence runs above have already
+// used) encodes and decodes frames of DIFFERENT descriptions — plane counts, sizes and bit depths growing and
+// shrinking — and every output is compared byte for byte with what a fresh codec object gives for that call.
+func c10CodecHistories(c *hx.Ctx, pristine map[string]reflect.Value) {
+	reg := dcodec.GetGlobalRegistry()
+	for _, sy := range c10Syntaxes() {
+		cd, ok := reg.GetCodec(sy.TS)
+		if !ok || c10FreshCodec(pristine, sy.Name) == nil {
+			continue
+		}
+		deep := 8
+		if sy.MaxBits > 8 {
+			deep = sy.MaxBits
+			if deep > 12 && sy.Name == "jpeg51" {
+				deep = 12
+			}
+		}
+		var infos []c10Info
+		add := func(w, h, spp, bs int) {
+			ba := 8
+			if bs > 8 {
+				ba = 16
+			}
+			if sy.Name == "jpeg51" && spp == 3 && bs > 8 {
+				return
+			}
+			infos = append(infos, c10Info{w, h, spp, ba, bs})
+		}
+		add(16, 12, 1, deep) // many byte planes / deep samples first
+		add(9, 7, 3, 8)
+		add(16, 12, 1, 8) // then the smallest description: stale state of the bigger ones would show here
+		add(5, 3, 1, 8)
+		add(24, 10, 3, deep)
+		add(1, 1, 1, 8)
+		add(16, 12, 1, 8)
+		add(33, 9, 1, deep)
+		add(16, 12, 1, 8)
+		rounds := 1
+		if c.Thorough() {
+			rounds = 3
+		}
+		for r := 0; r < rounds; r++ {
+			for step, i := range infos {
+				f := c10Frame(c.R, i, (step+r)%6)
+				in := map[string]any{"ts": sy.Name, "step": step, "round": r, "info": i.String(), "history": fmt.Sprint(infos[:step]), "seed": c.Seed}
+				got, oc := c10Run(cd, true, i, [][]byte{f}, nil)
+				want, woc := c10Run(c10FreshCodec(pristine, sy.Name), true, i, [][]byte{f}, nil)
+				c.Eval(fmt.Sprintf("codec-history|%s|%d|%d|enc", sy.Name, r, step), step > 0)
+				c.Count("codec-history")
+				same := oc[:2] == woc[:2] && len(got) == len(want)
+				for k := 0; same && k < len(got); k++ {
+					same = bytes.Equal(got[k], want[k])
+				}
+				if !same {
+					c10Fail(c, hx.Failure{Class: "c10-codec-object-history-enc-" + sy.Name, What: "Encode on the registered codec object differs from a fresh codec object after a history of other frame descriptions",
+						Input: in, Expected: "identical bytes (" + woc[:2] + ")", Actual: oc[:2]})
+					continue
+				}
+				if oc != "ok" {
+					continue
+				}
+				dgot, doc := c10Run(cd, false, i, got, nil)
+				dwant, dwoc := c10Run(c10FreshCodec(pristine, sy.Name), false, i, want, nil)
+				c.Eval(fmt.Sprintf("codec-history|%s|%d|%d|dec", sy.Name, r, step), step > 0)
+				same = doc[:2] == dwoc[:2] && len(dgot) == len(dwant)
+				for k := 0; same && k < len(dgot); k++ {
+					same = bytes.Equal(dgot[k], dwant[k])
+				}
+				if !same {
+					c10Fail(c, hx.Failure{Class: "c10-codec-object-history-dec-" + sy.Name, What: "Decode on the registered codec object differs from a fresh codec object after a history of other frame descriptions",
+						Input: in, Expected: "identical bytes (" + dwoc[:2] + ")", Actual: doc[:2]})
+				}
+			}
+		}
+	}
 }
 
 // c10DecLenCase: one correspondence line for the frame-length model.
